@@ -99,9 +99,9 @@ def run_check(pid, tier):
     t0 = time.time()
     mod = importlib.import_module("rules." + pid.lower())
     level = getattr(mod, "LEVEL", "other")
-    configs = ["lib"]
+    configs = ["lib"] + list(getattr(mod, "QUICK_CONFIGS", ()))
     if tier == "thorough":
-        configs += list(getattr(mod, "THOROUGH_CONFIGS", ("headeronly", "nothread")))
+        configs += [c for c in getattr(mod, "THOROUGH_CONFIGS", ("headeronly", "nothread")) if c not in configs]
     try:
         nf = getattr(mod, "NEEDS_FACTS", True)
         if nf is True or (nf == "thorough" and tier == "thorough"):
